@@ -22,7 +22,20 @@ pub struct RunReport {
     pub trace: Option<Vec<String>>,
 }
 
+/// Run and also return the medium as the consumer saw it (used by the minimiser).
+pub fn run_plan_collect(plan: &Plan) -> (RunReport, Vec<(Vec<u8>, bool, bool)>) {
+    let mut ctx = Ctx::new(false);
+    ctx.collect_medium = true;
+    let rep = run_plan_ctx(plan, &mut ctx);
+    (rep, std::mem::take(&mut ctx.final_medium))
+}
+
 pub fn run_plan(plan: &Plan, trace: bool) -> RunReport {
+    let mut ctx = Ctx::new(trace);
+    run_plan_ctx(plan, &mut ctx)
+}
+
+fn run_plan_ctx(plan: &Plan, ctx_in: &mut Ctx) -> RunReport {
     // containment self-test only (bin/selftest): never present in generated plans otherwise
     if plan.notes.iter().any(|n| n == "SELFTEST-ABORT") {
         std::process::abort();
@@ -32,7 +45,7 @@ pub fn run_plan(plan: &Plan, trace: bool) -> RunReport {
             std::thread::sleep(std::time::Duration::from_secs(1));
         }
     }
-    let mut ctx = Ctx::new(trace);
+    let mut ctx = std::mem::take(ctx_in);
     ctx.event(&plan.arm, plan.bits as u64, u64::from(plan.flavour));
     ctx.log.str(&plan.codec);
     match plan.arm.as_str() {
@@ -45,6 +58,7 @@ pub fn run_plan(plan: &Plan, trace: bool) -> RunReport {
         other => ctx.violate("HARNESS", format!("unknown arm {other}")),
     }
     let (signature, nontrivial) = signature(plan, &ctx);
+    ctx_in.final_medium = std::mem::take(&mut ctx.final_medium);
     RunReport {
         digest: ctx.log.finish(),
         violations: ctx.violations,
@@ -245,6 +259,10 @@ fn run_pipeline<const B: usize, const L: usize>(ctx: &mut Ctx, plan: &Plan, arm:
         apply_fault(ctx, plan, arm, framing, &mut segs, f);
     }
 
+    if ctx.collect_medium {
+        ctx.final_medium = segs.iter().map(|s| (s.bytes.clone(), s.damaged, s.dropped)).collect();
+    }
+
     // ---------------------------------------------------------------- consumer
     let mut outcomes = String::new();
     match framing {
@@ -308,6 +326,7 @@ fn decode_and_judge<const B: usize, const L: usize>(
     budget: usize,
 ) -> char {
     let offered: Vec<u8> = rs.rest().to_vec();
+    path_probes::<B>(rs.ctx, plan, arm, &offered);
     rs.begin_op(budget);
     rs.ctx.event("DEC", j as u64, offered.len() as u64);
     let pos0 = rs.pos;
@@ -376,6 +395,84 @@ fn decode_and_judge<const B: usize, const L: usize>(
                     }
                 }
                 'K'
+            }
+        }
+    }
+}
+
+/// Reach probes ("this rare condition was hit"): computed by the harness from the offered bytes
+/// with the same predicates the code under test branches on, so no hook in /repo is needed.
+fn path_probes<const B: usize>(ctx: &mut Ctx, plan: &Plan, arm: &ArmInfo, offered: &[u8]) {
+    let nb = nbytes(B);
+    let b0 = offered.first().copied();
+    match arm.name {
+        "raw-slice" | "borsh" | "ssz" | "serde-bincode" | "serde-sim" | "scale-fixed" | "postgres" | "alloy-rlp" | "fastrlp03" | "fastrlp04" | "rlp" | "der" => {
+            // the whole-limb decode fast path with a partial top-limb mask (bytes.rs)
+            if nb % 8 == 0 && B % 64 != 0 && nb > 0 {
+                ctx.probe("width-with-whole-limb-bytes-and-partial-mask");
+                if offered.len() >= nb {
+                    // any window of BYTES bytes whose top bits exceed the mask, BE or LE
+                    let top_be = offered[offered.len() - nb];
+                    let top_le = offered[nb - 1];
+                    let mask = ((1u16 << (B % 8)) - 1) as u8;
+                    if B % 8 != 0 && (top_be & !mask != 0 || top_le & !mask != 0) {
+                        ctx.probe("full-length-payload-with-bits-above-mask");
+                    }
+                }
+            }
+        }
+        _ => {}
+    }
+    match arm.name {
+        "alloy-rlp" | "fastrlp03" | "fastrlp04" | "rlp" => match b0 {
+            Some(0x00..=0x7f) => ctx.probe("rlp-single-byte"),
+            Some(0x80) => ctx.probe("rlp-empty-string"),
+            Some(0x81..=0xb7) => ctx.probe("rlp-short-string"),
+            Some(0xb8..=0xbf) => ctx.probe("rlp-long-string"),
+            Some(0xc0..=0xf7) => ctx.probe("rlp-short-list"),
+            Some(_) => ctx.probe("rlp-long-list"),
+            None => ctx.probe("empty-input"),
+        },
+        "der" => match (b0, offered.get(1)) {
+            (Some(0x02), Some(0x00..=0x7f)) => ctx.probe("der-short-length"),
+            (Some(0x02), Some(0x81)) => ctx.probe("der-length-0x81"),
+            (Some(0x02), Some(0x82)) => ctx.probe("der-length-0x82"),
+            (Some(0x02), Some(_)) => ctx.probe("der-odd-length-form"),
+            (Some(0x30), _) => ctx.probe("der-sequence"),
+            (Some(_), _) => ctx.probe("der-foreign-tag"),
+            (None, _) => ctx.probe("empty-input"),
+        },
+        "scale-compact" => match b0 {
+            Some(p) => match p & 3 {
+                0 => ctx.probe("compact-mode-1-byte"),
+                1 => ctx.probe("compact-mode-2-byte"),
+                2 => ctx.probe("compact-mode-4-byte"),
+                _ => match (p >> 2) + 4 {
+                    4 => ctx.probe("compact-bigint-4"),
+                    8 => ctx.probe("compact-bigint-8"),
+                    16 => ctx.probe("compact-bigint-16"),
+                    _ => ctx.probe("compact-bigint-generic"),
+                },
+            },
+            None => ctx.probe("empty-input"),
+        },
+        "postgres" => {
+            ctx.probe(match arms::postgres::TYPES[plan.aux(1) as usize % arms::postgres::TYPES.len()].0 {
+                "NUMERIC" => "pg-numeric",
+                "BIT" | "VARBIT" => "pg-bit",
+                "JSON" | "JSONB" => "pg-json",
+                "CHAR" | "TEXT" | "VARCHAR" => "pg-text",
+                "FLOAT4" | "FLOAT8" => "pg-float",
+                "BYTEA" => "pg-bytea",
+                _ => "pg-fixed-int",
+            });
+            if offered.is_empty() {
+                ctx.probe("empty-input");
+            }
+        }
+        _ => {
+            if offered.is_empty() {
+                ctx.probe("empty-input");
             }
         }
     }
